@@ -120,7 +120,12 @@ func genScenario(r *hx.Rng, name string, thorough bool) scenario {
 		return false
 	}
 	eqTarget := map[int]int{} // block -> block on another branch below the same parent with the same cumulative QN
-	shape := r.Intn(6)        // 0 chainy, 1 bushy, 2 two long forks, 3 random, 4/5 ladder: one main chain, forks off every rung
+	// 0 chainy, 1 bushy, 2 two long forks, 3 random, 4/5 ladder: one main chain, forks off every rung,
+	// 6 long: more blocks than the verifiedBlocks LRU holds (20), early rejected forks are re-delivered after eviction
+	shape := r.Intn(7)
+	if shape == 6 {
+		maxBlocks = 23 + r.Intn(6)
+	}
 	for i := 1; i <= maxBlocks; i++ {
 		var p int
 		switch shape {
@@ -143,6 +148,12 @@ func genScenario(r *hx.Rng, name string, thorough bool) scenario {
 			}
 		case 3:
 			p = r.Intn(len(nodes))
+		case 6:
+			if r.Chance(5, 6) {
+				p = len(nodes) - 1
+			} else {
+				p = r.Intn(len(nodes))
+			}
 		default:
 			main := (maxBlocks + 1) / 2
 			if i <= main {
@@ -155,7 +166,7 @@ func genScenario(r *hx.Rng, name string, thorough bool) scenario {
 		// heights may skip (a proposer slot was missed): +1, +2 or +3
 		h := par.height + 1
 		skipDen := 3
-		if shape >= 4 && i <= (maxBlocks+1)/2 {
+		if (shape == 4 || shape == 5) && i <= (maxBlocks+1)/2 {
 			skipDen = 8 // the ladder's main chain is mostly gap-free, its forks skip
 		}
 		if r.Chance(1, skipDen) {
@@ -289,7 +300,7 @@ func genScenario(r *hx.Rng, name string, thorough bool) scenario {
 			sc.lines = append(sc.lines, fmt.Sprintf("pool t%d", i))
 		}
 	}
-	crashy := r.Chance(2, 3)
+	crashy := r.Chance(2, 3) && shape != 6 // the long shape must not restart: the LRU has to fill up
 	emit := func(b int) {
 		if crashy && r.Chance(1, 3) {
 			k := r.Intn(10)
@@ -320,7 +331,7 @@ func genScenario(r *hx.Rng, name string, thorough bool) scenario {
 		if r.Chance(1, 6) {
 			emit(order[r.Intn(len(order))])
 		}
-		if r.Chance(1, 12) {
+		if r.Chance(1, 12) && shape != 6 {
 			sc.lines = append(sc.lines, "restart")
 		}
 		if r.Chance(1, 30) {
@@ -331,7 +342,7 @@ func genScenario(r *hx.Rng, name string, thorough bool) scenario {
 		}
 	}
 	// second pass: re-deliver everything (blocks rejected earlier may now win or be duplicates)
-	if r.Chance(1, 2) {
+	if r.Chance(1, 2) || shape == 6 {
 		for _, b := range order {
 			if r.Chance(1, 2) {
 				emit(b)
@@ -735,6 +746,19 @@ func (c *child) checkInv(ctx string) {
 		q := chain.QueryBlock(hh)
 		if q == nil || q.Header.Hash != hash {
 			c.violation("height-query-mismatch", fmt.Sprintf("%s: QueryBlock(%d) does not return chain block %s", ctx, hh, c.labelOfHash(hash.Bytes())))
+		}
+	}
+	// cache-reading queries agree with the store at every height (also the heights a new branch skips)
+	for hh := uint64(0); hh <= c.maxH+1; hh++ {
+		raw := core.VerifC05RawHeight(hh)
+		cached := chain.QueryBlockHeaderByHeight(hh, true)
+		gh := chain.GetBlockHash(hh)
+		qb := chain.QueryBlock(hh)
+		switch {
+		case raw == nil && (cached != nil || gh != (common.Hash{}) || qb != nil):
+			c.violation("cache-stale", fmt.Sprintf("%s: a cache-reading query returns a block at height %d where the height index has none", ctx, hh))
+		case raw != nil && (cached == nil || cached.Hash != raw.Hash || gh != raw.Hash):
+			c.violation("cache-stale", fmt.Sprintf("%s: cached header at height %d differs from the height index", ctx, hh))
 		}
 	}
 	for _, e := range core.VerifC05Dump() {
